@@ -244,6 +244,10 @@ func c15setup(tier string, seed uint64) int {
 				c15.gated = append(c15.gated, c15gated{Kind: "stop-vs-gone-client", Listeners: l, Plain: how, Rep: rep})
 			}
 		}
+		// Restart while a connection has been accepted but its goroutine has not registered it yet
+		for _, l := range []string{"plain", "both"} {
+			c15.gated = append(c15.gated, c15gated{Kind: "restart-vs-accepted-connection", Listeners: l, Rep: rep})
+		}
 		// Start that fails half-way (the plain port is bound, the TLS port is taken by somebody else)
 		c15.gated = append(c15.gated, c15gated{Kind: "start-fails-in-tls-half", Listeners: "both", Rep: rep})
 		// Stop while a client of the TLS port has connected but not finished its handshake
@@ -576,10 +580,10 @@ func c15runGated(idx int, g c15gated) run.Result {
 			return res
 		}
 		defer c2.c.Close()
-		if !ctl.WaitCount("conn.registered", reg+1, watchdog) {
-			res.Inconclusive = "the connection dialed during Stop was not registered"
-			ctl.Ungate("stop.mid")
-			return res
+		// give the server the chance to accept (and possibly register) it while Stop is parked; whether it does is
+		// not a verdict - a server may also refuse it at once or leave it in the listen queue
+		if ctl.WaitCount("conn.registered", reg+1, 300*time.Millisecond) {
+			res.Count("connection_registered_during_stop", 1)
 		}
 		ctl.Ungate("stop.mid")
 		select {
@@ -602,6 +606,38 @@ func c15runGated(idx int, g c15gated) run.Result {
 		}
 	case "stop-under-connect-storm":
 		stopStorm(&res, s, ctl, idx, g.Rep, "C15", desc)
+	case "restart-vs-accepted-connection":
+		// the accept loop has accepted the client and started its goroutine, which is held at its very first step
+		// (schedule point conn.accepted, before it registers); Restart runs to completion meanwhile
+		ctl.Gate("conn.accepted")
+		c, err := dialSrv(s.plain)
+		if err != nil {
+			res.Inconclusive = "client could not connect"
+			return res
+		}
+		defer c.c.Close()
+		if !ctl.WaitParked("conn.accepted", watchdog) {
+			res.Inconclusive = "the connection goroutine did not reach its first schedule point"
+			ctl.Ungate("conn.accepted")
+			return res
+		}
+		rerr := s.srv.Restart()
+		ctl.Ungate("conn.accepted")
+		if rerr != nil {
+			res.Inconclusive = "Restart failed: " + rerr.Error()
+			return res
+		}
+		// the connection was accepted before the Stop half of Restart: Stop promises that it has been closed
+		c.c.SetDeadline(time.Now().Add(3 * time.Second))
+		if _, err := c.c.Write(resp.Encode(resp.Cmd("PING"))); err == nil {
+			if v, err := c.read(); err == nil {
+				res.Violate("C15:restart-vs-accepted-connection:served-by-the-next-generation:"+g.Listeners, "after Stop returns every client connection has been closed", fmt.Sprintf("a connection accepted before Restart (its goroutine had not registered it yet when the Stop half ran) answered PING with %s after Restart returned: it is registered and served by the restarted server", v), desc)
+				return res
+			}
+		}
+		if why := s.probeServing(); why != "" {
+			res.Violate(sig+":not-serving", "after Restart returns without error the server accepts and serves on every enabled port", why, desc)
+		}
 	case "stop-vs-handshaking-client":
 		// a raw TCP connection to the TLS port that sends nothing: the server has accepted it and waits for the
 		// ClientHello (structural witness: a goroutine of the server is inside tlsReceive)
@@ -1266,7 +1302,7 @@ func init() {
 	run.Register(&run.Prop{
 		ID: "C15", Level: "fault_enumeration",
 		Rule: func(tier string) string {
-			return "two parts. (gated, hook H2) a controller parks goroutines at named schedule points and releases them in a chosen order: Restart vs the exiting accept loops for {plain, TLS, both} listeners with each old loop's exit (and its deferred close) placed before Stop returns / after the new listeners are open / concurrently (3, 3 and 9 placements); Stop vs a connection accepted while Stop is between its two phases; Stop vs connection goroutines parked at their exit point; Stop in the middle of a connect storm (16 dialing goroutines, repeated; a connection that answers after Stop returned, or that is still registered at a fixed point, is a violation); Stop while a client whose handler is still running has already gone away by reset or FIN (the reset is known to have arrived when the kernel no longer lists the server-side socket); Stop while 24..64 registered clients hang up by FIN and reset at the same moment (free-running, repeated). What Stop promises is probed whenever Stop returns, with or without an error. Stop while a client of the TLS port has connected but not sent its ClientHello (it must see EOF or a reset within 3 s). A Start that fails in its TLS half (the TLS port is held by another socket) must leave the plain port bindable, and after Stop a new Start must work. A transient Accept failure: every free descriptor of the process is taken, one client per port is left waiting in the listen queue so that Accept fails with EMFILE, the descriptors are released, and every port must serve again. Postconditions probed after everything is released: dial+PING on every enabled port (twice), bind probe, client-side EOF, Conns() empty, goroutine profile. (histories) ALL call sequences over {Start, Stop, Restart} up to length 4 (quick) / 6 (thorough) x {plain, plain+TLS} with 0..3 clients connecting, idling or disconnecting between calls (and, on the TLS port, clients that a common-name rule refuses after their handshake); after each call the promise of that call is probed, and at quiescent instants len(Conns()) must equal the number of client sockets held open (waiting on the conn.deregistered point, not on time). Start on a running server is tagged start-while-running. A goroutine leak is only reported when the count stays above baseline for the whole grace window; a goroutine parked at its own schedule point after Stop returned is a strict violation. Children are race-detector builds. distinct = scenario/sequence"
+			return "two parts. (gated, hook H2) a controller parks goroutines at named schedule points and releases them in a chosen order: Restart vs the exiting accept loops for {plain, TLS, both} listeners with each old loop's exit (and its deferred close) placed before Stop returns / after the new listeners are open / concurrently (3, 3 and 9 placements); Stop vs a connection accepted while Stop is between its two phases; Stop vs connection goroutines parked at their exit point; Stop in the middle of a connect storm (16 dialing goroutines, repeated; a connection that answers after Stop returned, or that is still registered at a fixed point, is a violation); Stop while a client whose handler is still running has already gone away by reset or FIN (the reset is known to have arrived when the kernel no longer lists the server-side socket); Stop while 24..64 registered clients hang up by FIN and reset at the same moment (free-running, repeated). What Stop promises is probed whenever Stop returns, with or without an error. Stop while a client of the TLS port has connected but not sent its ClientHello (it must see EOF or a reset within 3 s). Restart while an accepted connection's goroutine is held at its first step (schedule point conn.accepted), before it has registered: the connection must not be served afterwards. A Start that fails in its TLS half (the TLS port is held by another socket) must leave the plain port bindable, and after Stop a new Start must work. A transient Accept failure: every free descriptor of the process is taken, one client per port is left waiting in the listen queue so that Accept fails with EMFILE, the descriptors are released, and every port must serve again. Postconditions probed after everything is released: dial+PING on every enabled port (twice), bind probe, client-side EOF, Conns() empty, goroutine profile. (histories) ALL call sequences over {Start, Stop, Restart} up to length 4 (quick) / 6 (thorough) x {plain, plain+TLS} with 0..3 clients connecting, idling or disconnecting between calls (and, on the TLS port, clients that a common-name rule refuses after their handshake); after each call the promise of that call is probed, and at quiescent instants len(Conns()) must equal the number of client sockets held open (waiting on the conn.deregistered point, not on time). Start on a running server is tagged start-while-running. A goroutine leak is only reported when the count stays above baseline for the whole grace window; a goroutine parked at its own schedule point after Stop returned is a strict violation. Children are race-detector builds. distinct = scenario/sequence"
 		},
 		Exhaustive:    func(string) bool { return true },
 		Assumptions:   []string{"TLS listeners are configured through the file-based path with a PKI minted at run time", "wall-clock watchdogs only produce 'inconclusive'"},
